@@ -18,7 +18,7 @@ PROPS = {
              "schedules and of a third of the model-free rounds, all threads parked): recovery = the index of that instant, no missing or corrupted blob",
         assumptions=["process-kill model: completed calls persist, a call is atomic"]),
     "C06": dict(
-        suites=["seq", "crash"], tags={"cas_content", "cas_immutable", "reader_stable"}, corr={"trace", "dir"}, crash_corr={"image"},
+        suites=["seq", "crash", "sizes"], tags={"cas_content", "cas_immutable", "reader_stable"}, corr={"trace", "dir"}, crash_corr={"image"},
         rule="every CAS file re-hashed by the harness at every kill point and after every op; call traces never write under cas/"),
     "C07": dict(
         suites=["seq"], tags={"cas_exact", "staging_empty"}, corr={"dir"},
